@@ -142,8 +142,8 @@ impl Property for C01 {
     }
     fn cases(&self, tier: Tier) -> usize {
         match tier {
-            Tier::Quick => 6_000,
-            Tier::Thorough => 400_000,
+            Tier::Quick => 40_000,
+            Tier::Thorough => 1_000_000,
         }
     }
     fn strategy(&self, _tier: Tier) -> BoxedStrategy<TrajCase> {
